@@ -379,12 +379,43 @@ def _subst(x, f, memo):
                     b, cb = _subst_arg(a, f, memo)
                     args.append(b)
                     changed = changed or cb
-                r = Rat.atom(App(x.name, args)) if changed else Rat.atom(x)
+                if changed and x.name == 'ite' and len(args) == 3:
+                    c = fold_cond(args[0])
+                    if c is True:
+                        r = args[1] if isinstance(args[1], Rat) else Rat.atom(App(x.name, args))
+                    elif c is False:
+                        r = args[2] if isinstance(args[2], Rat) else Rat.atom(App(x.name, args))
+                    else:
+                        r = Rat.atom(App(x.name, args))
+                else:
+                    r = Rat.atom(App(x.name, args)) if changed else Rat.atom(x)
             else:
                 r = Rat.atom(x)
         memo[x] = (r, changed)
         return r, changed
     return x, False
+
+
+def fold_cond(c):
+    """True / False when a condition in App-argument form is decided by constants, else None"""
+    if not isinstance(c, tuple) or not c:
+        return None
+    if c[0] == 'const':
+        return bool(c[1])
+    if c[0] == 'cmp' and isinstance(c[2], Rat) and c[2].is_const():
+        v = c[2].const_value()
+        return {'==': v == 0, '!=': v != 0, '<': v < 0, '<=': v <= 0}.get(c[1])
+    if c[0] == 'not':
+        r = fold_cond(c[1])
+        return None if r is None else (not r)
+    if c[0] in ('and', 'or'):
+        rs = [fold_cond(x) for x in c[1:]]
+        dec = c[0] == 'or'
+        if any(r is dec for r in rs):
+            return dec
+        if all(r is (not dec) for r in rs):
+            return not dec
+    return None
 
 
 def subst_arg(a, f, memo=None):
